@@ -129,6 +129,9 @@ func init() {
 					if ops1 != ops0 {
 						e.violate("C09", "denied-but-persisted#"+m.name, "%s(%x) was denied yet the Persistence saw %d operations", m.name, s[:min(len(s), 8)], ops1-ops0)
 					}
+					if mqtt.VerifPoolAliased() {
+						e.violate("C09", "denied-left-trace#"+m.name, "after the denied %s(%x) the packet buffer pool hands out one buffer twice", m.name, s[:min(len(s), 8)])
+					}
 					continue
 				}
 				if mqtt.IsDeny(err) {
@@ -309,6 +312,9 @@ func init() {
 				if rl > 268435455 {
 					if !mqtt.IsDeny(err) {
 						e.violate("C09", "oversize-not-denied", "remaining length %d: %v", rl, err)
+					}
+					if mqtt.VerifPoolAliased() {
+						e.violate("C09", "denied-left-trace#size", "after the denied publish with remaining length %d (QoS %d) the packet buffer pool hands out one buffer twice", rl, qos)
 					}
 					continue
 				}
